@@ -64,6 +64,14 @@ def fake_case(spec, log):
     return {'n': len(out)}
 
 
+def _cmdline(pid):
+    try:
+        with open('/proc/%d/cmdline' % pid, 'rb') as f:
+            return f.read().replace(b'\0', b' ').decode('utf-8', 'replace')
+    except OSError:
+        return ''
+
+
 def real_case(spec, log):
     """Real server: unknown context / server killed during the hand-shake (injector)."""
     import glob
@@ -109,6 +117,18 @@ def real_case(spec, log):
             rec['pid'] = w.pid
             rec['pid_is_real_child'] = (w.pid != os.getpid()) and (pid_running(w.pid) or True)
         rec['server_alive'] = pid_running(server.pid)
+        if not rec['server_alive'] and rec['outcome'] != 'returned':
+            # the construction failed because the server died: what the server had started for it must not stay behind
+            # (every process of this case lives in the case's own session)
+            from vlib.common import session_procs
+            t1 = time.monotonic()
+            left = None
+            while time.monotonic() - t1 < 6:
+                left = [(st['pid'], st['state'], st.get('comm')) for st in session_procs(os.getsid(0)) if st['pid'] != os.getpid() and 'resource_tracker' not in _cmdline(st['pid'])]
+                if not left:
+                    break
+                time.sleep(0.1)
+            rec['left_behind'] = left
         if rec['server_alive']:
             time.sleep(0.3)
             rec['server_children'] = descendants(server.pid)
@@ -266,16 +286,41 @@ def run(tier):
     # ---- (b) real server ----------------------------------------------------------
     from vlib import lpi
     jobs = []
+    import glob
+    import json
     for cls in ('RemoteWorker', 'PersistentRemoteWorker'):
         jobs.append(dict(cls=cls, what='unknown-context'))
-        for k in (range(0, 48) if thorough else range(0, 48, 4)):
-            jobs.append(dict(cls=cls, what='server-killed-in-handshake', k=k))
+        # reference trace of the server's side of the hand-shake (line events from __setstate__ until it returns)
+        rec_cfg = lpi.cfg(cls, 'record', events='line', arm_func='__setstate__', end=['__setstate__'])
+        rec_cfg['arm']['state_key'] = '_from_remote_parent'
+        rdir = os.path.join(wd, 'rec_' + cls)
+        run_case('checks.c20:real_case', dict(cls=cls, what='record'), rdir, timeout=90, inject=rec_cfg)
+        trace = []
+        for f in glob.glob(os.path.join(rdir, 'trace.*.jsonl')):
+            t = [json.loads(l) for l in open(f) if l.strip()]
+            if len(t) > len(trace):
+                trace = t
+        cleanup(rdir)
+        lines = [e for e in trace if e.get('kind') == 'line' and 'i' in e]
+        own = [e for e in lines if e.get('func') == '__setstate__']
+        chk.count('handshake_lines_recorded_' + cls, len(lines))
+        if len(own) < 10:
+            chk.inconclusive('reference trace of the server side of the hand-shake too short (%d own lines)' % len(own), {'cls': cls})
+            continue
+        # the child process exists from the line after `self._child.start()`: from there on every own line is taken
+        import linecache
+        started = [k for k, e in enumerate(own) if k and '_child.start()' in linecache.getline(os.path.join(os.environ.get('VERIF_REPO') or '/repo', 'pyworkers', own[k - 1].get('file', '')), own[k - 1].get('line', 0))]
+        chk.count('own_lines_after_child_start_' + cls, len(own) - started[0] if started else 0)
+        tail_from = started[0] if started else len(own) * 2 // 3
+        pick = lines if thorough else (own[:tail_from:3] + own[tail_from:])
+        for e in pick:
+            jobs.append(dict(cls=cls, what='server-killed-in-handshake', k=e['i'], at=lpi.at_of(trace, e['i']), line=e.get('line'), func=e.get('func')))
 
     def rone(ij):
         i, sp = ij
         inject = None
         if sp['what'] == 'server-killed-in-handshake':
-            inject = lpi.cfg(sp['cls'], 'act', events='line', k=sp['k'], action='sigkill', arm_func='__setstate__', end=['__setstate__'])
+            inject = lpi.cfg(sp['cls'], 'act', events='line', k=sp['k'], action='sigkill', arm_func='__setstate__', end=['__setstate__'], at=sp.get('at'))
             inject['arm']['state_key'] = '_from_remote_parent'
         res = run_case('checks.c20:real_case', sp, os.path.join(wd, 'r%d' % i), timeout=90, inject=inject)
         cleanup(res['dir'])
@@ -283,7 +328,7 @@ def run(tier):
 
     for sp, res in pmap(rone, list(enumerate(jobs)), 8):
         recs = [e['rec'] for e in res['events'] if e.get('ev') == 'real']
-        chk.case(('real', sp['cls'], sp['what'], sp.get('k')))
+        chk.case(('real', sp['cls'], sp['what'], sp.get('func'), sp.get('line'), sp.get('k')))
         chk.count('real_server_cases')
         if not recs:
             chk.inconclusive('real-server case incomplete', {'spec': sp, 'stderr': res['stderr'][-400:], 'timed_out': res['timed_out']})
@@ -302,6 +347,9 @@ def run(tier):
                 except ValueError:
                     pass
             chk.violation('constructor-hangs:%s:%s' % (kindname, sp['what']), '%s, %s (k=%s, point %s): constructor blocked; stack %s' % (sp['cls'], sp['what'], sp.get('k'), (rec['point'] or '')[:120], rec['stack'][:3]), {'record': rec})
+        elif rec.get('left_behind'):
+            chk.violation('child-left-behind-after-failed-construction:%s:%s' % (kindname, sp['what']), '%s, %s (%s line %s): constructor %s but processes started for it are still there after 6 s: %s' % (
+                sp['cls'], sp['what'], sp.get('func'), sp.get('line'), rec['outcome'], rec['left_behind']), {'record': rec})
         elif sp['what'] == 'unknown-context':
             if rec['outcome'] == 'returned' and rec.get('alive'):
                 chk.violation('unknown-context-worker-alive:%s' % kindname, 'worker in unknown context returned alive', {'record': rec})
